@@ -441,6 +441,8 @@ def _hessian_for_backend(prog, rep, f):
 
 
 def check(prog, rep):
+    from . import pitfalls as _pit
+    rep.section(_pit.report, prog, rep, 'R17.P', ['src/optyx/core/autodiff.py'], ('P3',))
     ch = prog.func("optyx.core.autodiff:compute_hessian")
     rep.section(_second_pass, prog, rep, ch)
     # closure of the rule set (shared with C02)
